@@ -603,7 +603,7 @@ VARIANTS += [
     M("layout-wrap-then-escape", LAYOUT, "                format_synteny(\n                    map(tex.escape, syntenies[root_gene]),\n                    params.event_label_width,\n                ).replace", "                tex.escape(format_synteny(\n                    syntenies[root_gene],\n                    params.event_label_width,\n                )).replace", "WRAP-AFTER-ESCAPE", "ESCAPE-TAINT"),
     M("tikz-transfer-connector-child-colour", TIKZ, "                rf\"\"\"\\path[branch={{{get_color(branch.color)}}}] ({\n                    layout.branches[left_gene].anchor_parent : {MAX_DIGITS}\n                }) |- ({", "                rf\"\"\"\\path[branch={{{get_color(layout.branches[left_gene].color)}}}] ({\n                    layout.branches[left_gene].anchor_parent : {MAX_DIGITS}\n                }) |- ({", "DRAW-COLOR-OWN"),
     M("topo-all-permutation-shortcut", TOPO, "    results = []\n\n    for node_from in starts:\n        next_starts = set(starts)", "    if len(starts) == len(graph):\n        return [list(p) for p in __import__(\"itertools\").permutations(starts)]\n\n    results = []\n\n    for node_from in starts:\n        next_starts = set(starts)", "ENUM-NO-TRUNCATION"),
-    M("model-syntenies-to-sets", MODEL, "            \"syntenies\": parse_synteny_mapping(\n                parent[\"input\"].object_tree,\n                data[\"syntenies\"],\n            ),", "            \"syntenies\": {node: set(syn) for node, syn in parse_synteny_mapping(\n                parent[\"input\"].object_tree,\n                data[\"syntenies\"],\n            ).items()},", "FIELD-SOURCE", "ORDER-PRESERVED"),
+    M("model-syntenies-to-sets", MODEL, "            \"syntenies\": parse_synteny_mapping(\n                parent[\"input\"].object_tree,\n                data[\"syntenies\"],\n            ),", "            \"syntenies\": {node: set(syn) for node, syn in parse_synteny_mapping(\n                parent[\"input\"].object_tree,\n                data[\"syntenies\"],\n            ).items()},", "FIELD-SOURCE"),
     M("layout-hgt-remove-before-losses", LAYOUT, "                    conserv_gene = _add_losses(\n                        layout_state,\n                        conserv_gene,\n                        mapping[conserv_gene],\n                        root_species.up,\n                    )\n\n                    state[\"anchor_nodes\"].add(root_gene)\n                    state[\"anchor_nodes\"].remove(conserv_gene)",
       "                    state[\"anchor_nodes\"].add(root_gene)\n                    state[\"anchor_nodes\"].discard(conserv_gene)\n                    conserv_gene = _add_losses(\n                        layout_state,\n                        conserv_gene,\n                        mapping[conserv_gene],\n                        root_species.up,\n                    )\n", "ANCHOR-SET"),
     M("dset-binary-order-test-flipped", DSET, "            elif second is None or groups[0] < second:", "            elif second is None or groups[0] > second:", "BINARY-COARSENINGS"),
